@@ -345,7 +345,8 @@ def omit_rt(x, i1, i2, i3, i4, i5, i6, i7, js):
     mo.ob("omit_default_rt_json", "i1: int, i2: int, i6: int", "return omit_rt(7, i1, i2, i1, 1, i6 % 3, i6, 0, True)",
           pre=["0 <= i1 < 4 and 0 <= i2 < 4 and 0 <= i6 < 4"], timeout=tmo,
           family="omit_default round trip through json", bounds="as above, payload 7, nested-path recipe, debug_trail DISABLE and ALL, through json.dumps/loads (C code: realised)")
-    mods = [m, m2, mo, ktd_module(tier)]
+    from props.fam_litenum import litenum_module
+    mods = [m, m2, mo, ktd_module(tier), litenum_module("C01", tier)]
     names = ["plain", "rename", "nested", "nested2", "camel", "upper_kebab", "no_trim", "map_gt_style", "ellipsis", "ellipsis_style", "pairs_map",
              "stack_override", "stack_style", "forbid_nested", "rest_field", "rest_field_rename", "saturator", "omit_all", "omit_one", "omit_nested",
              "as_list", "as_list_map", "list_gaps", "list_in_dict", "dict_in_list"]
